@@ -161,14 +161,30 @@ def mupdate(a: RCell, b: RCell) -> RCell:
     return RCell(bits_of(bytes([4]) + a.hash(0) + b.hash(0) + a.depth(0).to_bytes(2, 'big') + b.depth(0).to_bytes(2, 'big')), (a, b), True)
 
 
+def canon_node(bits: str, special: bool, kids) -> bytes:
+    """digest of one structural node given the digests of its children (flat, so that 1023-deep chains compare
+    without recursion; it is NOT the TON hash: it covers the exact bit string, the special flag and the child order)"""
+    import hashlib
+    return hashlib.sha256(b'%d|%s|%d|' % (len(bits), bits.encode(), 1 if special else 0) + b''.join(kids)).digest()
+
+
 def canon(c: RCell, memo=None):
-    """structural canonical form: nested tuples (bits, special, children)"""
+    """structural canonical form: equal iff same bits, special flags and references, recursively"""
     if memo is None:
         memo = {}
-    k = id(c)
-    if k not in memo:
-        memo[k] = (c.bits, c.special, tuple(canon(r, memo) for r in c.refs))
-    return memo[k]
+    stack = [c]                      # iterative post-order: chains may be 1023 cells deep
+    while stack:
+        x = stack[-1]
+        if id(x) in memo:
+            stack.pop()
+            continue
+        pend = [r for r in x.refs if id(r) not in memo]
+        if pend:
+            stack.extend(pend)
+            continue
+        memo[id(x)] = canon_node(x.bits, x.special, [memo[id(r)] for r in x.refs])
+        stack.pop()
+    return memo[id(c)]
 
 
 def topo(root_list):
